@@ -440,3 +440,4 @@ def run(chk):
     rule_extra_parameters(chk, "C20.6")
     X.rule_removedir_recursion(chk, "C20.7", [("liquer.remote_store", "RemoteStore")])
     X.rule_get_json_force(chk, "C20.8")
+    X.rule_trigger_complements_guard(chk, "C20.9")
